@@ -53,7 +53,7 @@ def main(argv=None):
                     print('    clause:', ob.meta.get('clause'))
                     print('    path:', [str(f)[:120] for f in getattr(ob, 'branch_terms', [])])
             if args.dump and args.dump in ob.name:
-                open('/tmp/dump_%s.smt2' % abs(hash(ob.name)), 'w').write(ob.smt2)
+                open('/tmp/dump_%s.smt2' % abs(hash(ob.name + ob.smt2)), 'w').write(ob.smt2)
                 print('dumped', ob.name)
         for p in probs:
             print('PROBLEM', p)
